@@ -12,7 +12,7 @@ CHECKS = {
    technique="deterministic simulation: nested-transaction reference model for sequential histories, seeded thread schedules with resize pressure for isolation/atomicity, crash-point enumeration around commit",
    note="Trusted base: hooks H1/H2 and the crash points (MANIFEST.hooks); batches prepared concurrently stay below the 10% headroom of the enlarged map (the envelope of the allocation policy); process death, not power loss."),
  "C17": dict(engine="schedsim", cat="exploration", ref="5/C17",
-   text="Seeded schedule exploration: a fixed multiset of operations (peers submitting bodies of competing forks, readers, template builder, segment server, compactor) runs on 4-8 real OS threads against one real Chain; a baton scheduler hooked into grin_util's lock types, the LMDB writer token, the labelled durable steps and sleeps lets exactly one thread run and picks the next one from a seeded PRNG at every such point. Checked: no deadlock, no panic, every observed head names a stored block of matching height/difficulty, head difficulty never decreases per reader, reads never fail; at join the head is the unique most-work block, validate(false) passes and the unspent view equals the replayed ledger. Every run is in a forked child; a recorded choice list replays to the identical trace.",
+   text="Seeded schedule exploration: a fixed multiset of operations (peers submitting bodies of competing forks, a headers thread delivering the fork branch header-first while bodies already arrive, readers incl. validate_tx of an always-valid and a never-valid transaction, template builder, segment server, compactor - every fourth case on an 87-92 block chain where compaction really acts) runs on 4-8 real OS threads against one real Chain; a baton scheduler hooked into grin_util's lock types, the LMDB writer token, the labelled durable steps and sleeps lets exactly one thread run and picks the next one from a seeded PRNG at every such point. Checked: no deadlock, no panic, every observed head names a stored block of matching height/difficulty, head difficulty never decreases per reader, reads never fail; at join the head is the unique most-work block, validate(false) passes and the unspent view equals the replayed ledger. Every run is in a forked child; a recorded choice list replays to the identical trace.",
    technique="deterministic simulation: seeded scheduler controlling real threads at lock/commit points with deadlock detection and sequential-outcome oracle",
    note="Trusted base: hooks H1/H2 (lock wrappers model parking_lot's writer preference; LMDB writer mutex shadowed by a token); scheduling granularity is lock operations, durable steps and sleeps."),
  "C16": dict(engine="pibdsim", cat="exploration", ref="5/C16",
@@ -20,7 +20,7 @@ CHECKS = {
    technique="deterministic simulation: seeded segment delivery schedules with loss/duplication/reordering/corruption between real Segmenter and Desegmenter",
    note="Trusted base: harness mirror of the sync loop and of receive_*_segment; the serving chain keeps its archive header at or above its compaction horizon (always true with mainnet parameters); single bitmap chunk."),
  "C14": dict(engine="poolsim", cat="exploration", ref="5/C14",
-   text="A real chain plus a real TransactionPool (over a harness BlockChain adapter that forwards identically to servers::PoolToChainAdapter, with ChainToPoolAndNetAdapter::block_accepted mirrored) are driven with seeded interleavings of submissions of every kind (valid, dependent, conflicting, duplicate, aggregated, under-fee, immature/just-mature coinbase, future/next lock height, stem/fluff), blocks mined from the mineable set, blocks with arbitrary pool subsets and conflicting spends, reorgs and capacity shrinks; after every operation the pool's joint validity on the current head, per-entry fee/weight/validity, stempool+txpool validity and the mineable set are checked, and blocks built from the mineable set must be accepted by the chain.",
+   text="A real chain plus a real TransactionPool (over a harness BlockChain adapter that forwards identically to servers::PoolToChainAdapter, with ChainToPoolAndNetAdapter::block_accepted mirrored) are driven with seeded interleavings of submissions of every kind (valid, dependent, conflicting, duplicate, aggregated, under-fee, immature/just-mature coinbase, future/next lock height, stem/fluff), blocks mined from the mineable set, blocks with arbitrary pool subsets and conflicting spends, reorgs and capacity shrinks (every schedule contains a shrink below the current size followed by an under-fee and a valid submission); after every operation the pool's joint validity on the current head, per-entry fee/weight/validity, stempool+txpool validity and the mineable set are checked, and blocks built from the mineable set must be accepted by the chain.",
    technique="deterministic simulation: seeded interleavings of pool submissions, block connections, reorgs and evictions with invariants checked after every step",
    note="Trusted base: harness wallet/miner; a block connection (process_block + adapter reconcile calls) is treated as atomic; reorg-cache ageing uses an explicit cutoff."),
  "C19": dict(engine="wiresim", cat="fault_enumeration", ref="5/C19",
@@ -28,11 +28,11 @@ CHECKS = {
    technique="deterministic simulation: lock-stepped loopback transport with enumerated fragmentation and frame-limit faults",
    note="Trusted base: kernel loopback TCP; the harness copy of the documented per-type limits; inter-fragment gaps far below the I/O timeouts."),
  "C11": dict(engine="wiresim", cat="exploration", ref="5/C11",
-   text="A simulated hostile peer feeds the real Codec (and, in a forked child, MerkleProof::from_hex) structure-aware mutations of real encodings of every message type at every protocol version: truncation + close, boundary values in every 64/32/16-bit window, tag sweeps, random bodies, inconsistent lengths, spliced bodies. The reader thread must not panic, must return after EOF, and no single allocation may exceed a small multiple of the per-type cap plus input length; decoded values go through the stateless pre-state checks (validate_read, segment root reconstruction against the archive header).",
+   text="A simulated hostile peer feeds the real Codec (and, in a forked child, MerkleProof::from_hex) structure-aware mutations of real encodings of every message type at every protocol version: truncation + close, boundary values in every 64/32/16-bit window, every count-like window set to values around the decoders' own caps (with and without truncation shortly after), tag sweeps, random bodies, inconsistent lengths, spliced bodies. The reader thread must not panic, must return after EOF, and no single allocation may exceed twice the announced frame length (which the codec reserves, and refuses above 4x the per-type limit) plus 16x the bytes actually received plus 256 KiB; decoded values go through the stateless pre-state checks (validate_read, segment root reconstruction against the archive header).",
    technique="deterministic simulation: byzantine peer on a simulated stream transport with allocation and liveness oracles",
    note="Trusted base: counting global allocator in the harness; release arithmetic; only single-message streams plus one split are explored per mutation."),
  "C09": dict(engine="crashsim", cat="fault_enumeration", ref="5/C09",
-   text="Fault enumeration: for each scenario (plain extension with spends of several ages, header-then-block, losing fork block, reorg with spends, header-only reorg, compaction, compaction followed by a block, block after compaction) every labelled durable step is enumerated; a forked child opens a copy of the base directory, runs the operation and _exits at that step; the parent reopens the surviving directory and requires Chain::init Ok, head old/new/ancestor, validate(false), unspent set equal to the replayed ledger, an identical second reopen and convergence with an uninterrupted twin after re-delivery. Known, unrepaired defects are listed in known_findings.json and reported as KNOWN-FINDING.",
+   text="Fault enumeration: for each scenario (plain extension with spends of several ages, header-then-block, losing fork block, reorg with spends, header-only reorg, compaction, compaction followed by a block, block after compaction) every labelled durable step is enumerated; a forked child opens a copy of the base directory, runs the operation and _exits at that step; the parent reopens the surviving directory and requires Chain::init Ok, head old/new/ancestor, validate(false), unspent set equal to the replayed ledger, an identical second reopen and convergence with an uninterrupted twin after re-delivery. Second level (crash during recovery): for survivors whose restart has recovery work to do and which pass the oracle, the restart itself is killed at each of its crash points and the oracle applied again. Known, unrepaired defects are listed in known_findings.json and reported as KNOWN-FINDING.",
    technique="deterministic simulation: exhaustive crash-point enumeration with process-death fault injection and reopen oracle",
    note="Trusted base: crash points are the cfg(grin_verif) hooks (MANIFEST.hooks); fault model is process death (page cache survives), not power loss; scenarios are sampled by seed, crash points within a scenario are enumerated completely."),
  "C08": dict(engine="storesim", cat="exploration", ref="5/C08",
